@@ -2076,6 +2076,10 @@ class SymX:
             callee = self._resolve(call, st)
         if callee is not None:
             return self._call_repo(callee, call, recv, args, kwargs, st)
+        if name == "_replace" and recv[0] == "new" and not args:
+            replaced = self._with_fields(recv, kwargs)
+            if replaced is not None:
+                return replaced
         bound = self._partialmethod(recv, name)
         if bound is not None:
             # `name = partialmethod(method, ...)` in the class body: the method with the leading / keyword arguments filled in
@@ -2093,6 +2097,26 @@ class SymX:
         if ci is None:
             return False
         return not any(b not in self.repo.classes and not b.endswith(("ABC", "object", "Protocol", "Generic")) for c in self.repo.mro(ci) for b in c.bases)
+
+    def _with_fields(self, obj: Term, changes: tuple) -> "Term | None":
+        """`nt._replace(a=x)` / `dataclasses.replace(obj, a=x)`: a new object of the same class with these fields exchanged (only for
+        classes without their own __init__ / __post_init__, whose fields are their constructor arguments)."""
+        ci = self.repo.classes.get(obj[1])
+        if ci is None or self.repo.lookup_method(ci, "__init__") is not None or self.repo.lookup_method(ci, "__post_init__") is not None:
+            return None
+        if any(k == "**" for k, _v in changes):
+            return None
+        fields = [a for c in reversed(self.repo.mro(ci)) for a in c.ann_attrs]
+        if any(k not in fields for k, _v in changes) or len(obj[2]) > len(fields):
+            return None
+        vals: dict[str, Term] = {}
+        for i, v in enumerate(obj[2]):
+            vals[fields[i]] = v
+        for k, v in obj[3]:
+            vals[k] = v
+        for k, v in changes:
+            vals[k] = v
+        return ("new", obj[1], (), tuple((f, vals[f]) for f in fields if f in vals), self.fresh())
 
     def _partialmethod(self, recv: Term, name: str) -> "tuple[FuncInfo, tuple, tuple] | None":
         ci = self._class_of_term(recv)
@@ -2494,6 +2518,10 @@ class SymX:
             folded = self._reduce(fterm, args, st, call)
             if folded is not None:
                 return folded
+        if dotted == "dataclasses.replace" and len(args) == 1 and args[0][0] == "new":
+            replaced = self._with_fields(args[0], kwargs)
+            if replaced is not None:
+                return replaced
         if dotted == "itertools.tee" and args:
             res0 = ("call", fterm, args, kwargs)
             for i in range(2 if len(args) < 2 or args[1][0] != "const" else int(args[1][1])):
